@@ -1,8 +1,9 @@
 import PartituraModel.Wire
 import PartituraModel.Model.Durations
 import PartituraModel.Model.Measures
+import PartituraModel.Model.Rests
 
-open Wire Model Model.Dur Model.Meas
+open Wire Model Model.Dur Model.Meas Model.Rests
 
 def fmtSym (sd : Gen.SymDur) : String :=
   fmtTuple [sd.1, fmtNat sd.2.1, fmtOpt fmtNat sd.2.2.1, fmtOpt fmtNat sd.2.2.2]
@@ -76,8 +77,29 @@ def fmtNoteS (ns : List Note) (n : Note) : String :=
 def fmtPieces (l : List Piece) : String :=
   fmtList (fun p => fmtTuple [fmtNat p.1, fmtNat p.2.1, fmtEst p.2.2]) l
 
+def parseGNote : P GNote := do
+  let s ← rat; let e ← rat; let v ← int; let st ← int
+  pure ⟨s, e, v, st, none⟩
+
+def parseSpan : P (Rat × Rat) := do let a ← rat; let b ← rat; pure (a, b)
+def parseIntPair : P (Int × Int) := do let a ← int; let b ← int; pure (a, b)
+
+/-- the rests `fill_rests` added, in iteration order -/
+def fmtAdded (out : Option (List GNote)) : String :=
+  match out with
+  | none => "err"
+  | some l => fmtList (fun n => fmtTuple [fmtRat n.start, fmtRat n.stop, fmtInt n.voice, fmtInt n.staff,
+                                           fmtSymField n.added]) (l.filter (·.added.isSome))
+
 def handle (ts : List String) : String :=
   match ts with
+  | "fillm" :: rest =>
+    orErr <| (run (do let qd ← list parsePair; let k ← nat; let ms ← list parseSpan; let ns ← list parseGNote
+                      pure (qd, k, ms, ns)) rest).map fun (qd, k, ms, ns) => fmtAdded (fillRests qd k ms ns)
+  | "fillg" :: rest =>
+    orErr <| (run (do let qd ← list parsePair; let uvs ← list parseIntPair; let ms ← list parseSpan
+                      let ns ← list parseGNote; pure (qd, uvs, ms, ns)) rest).map
+      fun (qd, uvs, ms, ns) => fmtAdded (fillRestsG qd uvs ms ns)
   | "est" :: rest =>
     orErr <| (run (do let d ← rat; let v ← nat; let c ← bool; pure (d, v, c)) rest).bind fun (d, v, c) =>
       (estimate d v c).map fmtEst
